@@ -31,6 +31,20 @@ def op_kind(op, res) -> str:
     return k + ("!" if res is not None and res.raised else "")
 
 
+def raise_site(exc) -> str:
+    """module.function of the innermost onnx_ir frame that raised (mechanism-level, seed-independent)."""
+    tb = exc.__traceback__
+    site = "?"
+    while tb is not None:
+        code = tb.tb_frame.f_code
+        fn = code.co_filename.replace("\\", "/")
+        if "/onnx_ir/" in fn:
+            mod = fn.rsplit("/onnx_ir/", 1)[1].rsplit(".py", 1)[0].replace("/", ".")
+            site = f"{mod}.{code.co_qualname if hasattr(code, 'co_qualname') else code.co_name}"
+        tb = tb.tb_next
+    return site
+
+
 def signature(clauses, ops, results) -> str:
     """Mechanism-level signature: violated clauses | the call after which the violation became
     observable | the other calls of the 1-minimal witness that raised.  Calls that succeeded
@@ -60,6 +74,20 @@ def shrink_history(ops, monitor, clause_set):
             final = found
             break
     return small[: len(results)], results, final
+
+
+def shrink_with(ops, make_monitor, clause_set, max_tests=600):
+    """ddmin with a fresh monitor per replay (for monitors that carry per-history state)."""
+    def fails(sub):
+        _, f = replay_ops(sub, make_monitor())
+        return bool(f) and bool({c for c, _ in f[3]} & clause_set)
+
+    return shrink.ddmin(ops, fails, max_tests=max_tests)
+
+
+def results_of(ops):
+    w = World()
+    return [w.apply(op) for op in ops]
 
 
 def describe(ops, results) -> list[str]:
